@@ -135,8 +135,8 @@ Theorem C17_ecdsa_key_substitution_refuted : exists d d' z r s k : Z,
   forall xcoord : Z -> Z, xcoord k = r -> xcoord (p256_n - k)%Z = r ->
     ecdsa_exp_verify xcoord d z r s k = true /\ ecdsa_exp_verify xcoord d' z r s (p256_n - k) = true.
 Proof.
-  exists 3%Z, 102926301520316665566842175066140065359997293532565120304375341387616455150545%Z,
-         10%Z, 9%Z, 46316835684142499505078978779763029411998782089654304136968903624427404817755%Z, 5%Z.
+  exists 3%Z, 0xe38e38e2aaaaaaab8e38e38e38e38e38a7e9c2617814feaf1188b43b8b02cbd1%Z,
+         10%Z, 9%Z, 0x666666660000000066666666666666664b8f9778a93ca5cec7e3eab464f4755b%Z, 5%Z.
   split; [|split].
   - vm_compute. intuition congruence.
   - vm_compute. reflexivity.
